@@ -78,6 +78,12 @@ def run_shift(ctx, binp, items, label):
         text = "%s: render(translate(%d,%d)*M) is not the shifted render(M): %s [view %s]" % (label, dx, dy, why, v)
         replay = dict(op='c13-shift', doc=d, view=v, shift=[dx, dy], result=r,
                       replay="rvh c13-shift, payload '-\\t<doc>\\t<view>\\t<dx>\\t<dy>\\temit'")
+        if r.get('region_off'):
+            # a filter layer clamped to max_bbox whose region origin is not the layer origin: the result is drawn displaced
+            # (C13_turbulence_phase_equivariant_refuted); judged before layer-origin-negative, which it used to hide behind
+            st['region_off'] = st.get('region_off', 0) + 1
+            ctx.known_or_violation('clamped-filter-region-origin', text, replay)
+            continue
         if r.get('neg_origin'):
             st['neg_origin'] = st.get('neg_origin', 0) + 1
             ctx.known_or_violation('layer-origin-negative', text, replay)
@@ -94,23 +100,102 @@ def run_shift(ctx, binp, items, label):
     return st
 
 
+def qs(v):
+    """a multiple of 1/4 as a Coq Q literal"""
+    n = int(round(v * 4))
+    return "(%d # 4)" % n if n >= 0 else "(-(%d # 4))" % (-n)
+
+
+def light_correspondence(ctx, binp, n):
+    """Extension round 4: the source-derived point_light_xy / spot_light_xy / spot_points_at_xy (Gen/LeafFilterPos.v) against the
+    real filter::transform_light_source.  All inputs are multiples of 1/4 (|coordinates| <= 300, |matrix entries| <= 6), so the
+    f32 mapping is exact and the comparison (inside Coq, chk_light) is an equality."""
+    rng = ctx.rng
+
+    def quarter(lim):
+        return (rng.below(8 * lim + 1) - 4 * lim) / 4.0
+    cases = []
+    for k in range(n):
+        spot = k % 2 == 1
+        l = [quarter(300) for _ in range(6)]
+        r = [rng.below(401) - 200, rng.below(401) - 200, 1 + rng.below(300), 1 + rng.below(300)]
+        if k % 5 == 0:
+            r[1] = r[0]           # region.x == region.y: where the spot light slip hides
+        t = [quarter(6), quarter(2) if k % 3 == 0 else 0.0, quarter(2) if k % 3 == 0 else 0.0, quarter(6), quarter(200), quarter(200)]
+        cases.append((spot, l, r, t))
+    payloads = ["%s;%s;%s;%s" % ('spot' if c[0] else 'point', ",".join(repr(x) for x in c[1]), ",".join(str(x) for x in c[2]),
+                                ",".join(repr(x) for x in c[3])) for c in cases]
+    outs = ctx.rvh_batch(binp, 'c13-light', payloads)
+    rows = []
+    used = []
+    for c, o, pl in zip(cases, outs, payloads):
+        try:
+            r = json.loads(o)
+        except (TypeError, ValueError):
+            r = {}
+        if 'v' not in r or not r.get('exact'):
+            ctx.violation("c13-light: transform_light_source failed or produced values that are not exact sixteenths: %s" % str(r)[:200],
+                          dict(op='c13-light', payload=pl))
+            continue
+        spot, l, rg, t = c
+        rows.append("(%s, (%s, %s, %s, %s), mk_irect %s, from_row %s, [%s])" % (
+            'true' if spot else 'false', qs(l[0]), qs(l[1]), qs(l[3]), qs(l[4]),
+            " ".join("(%d)" % x for x in rg), " ".join(qs(x) for x in t), ";".join("(%d)%%Z" % x for x in r['v'])))
+        used.append((pl, r))
+        ctx.note_case("light/" + pl, nontrivial=True)
+    if not rows:
+        return 0
+    body = ("Local Open Scope Q_scope.\nDefinition cases : list (bool * (Q * Q * Q * Q) * irect * ts * list Z) := [\n%s\n].\n"
+            "Eval vm_compute in (bad_indices (fun c => match c with (sp, (lx, ly, px, py), rg, t, impl) => chk_light sp lx ly px py rg t impl end) cases).\n"
+            % ";\n".join(rows))
+    rcode, out = ctx.coq_eval('light_corr', body, ['Model.Base', 'Model.Corr', 'Model.Render', 'Gen.LeafFilterPos', 'Model.FilterPos'], timeout=300)
+    bad = ctx.parse_N_list(out) if rcode == 0 else None
+    if bad is None:
+        ctx.violation("c13-light: the model could not be evaluated: %s" % out[-400:], dict(op='c13-light'), found_input=False)
+        return 0
+    for i in bad[:3]:
+        ctx.violation("light-source correspondence: the real transform_light_source disagrees with the source-derived model "
+                      "(C13_point_light_equivariant / C13_spot_light_* are about the model): payload %s -> 16 x (x, y, pointsAt x, y) = %s"
+                      % (used[i][0], used[i][1]['v']), dict(op='c13-light', payload=used[i][0], implementation=used[i][1]))
+    return len(rows)
+
+
+def model_search_filterpos(ctx, binp):
+    """the clauses of the round-4 theorems evaluated on the frame move recorded from the clamped-filter witness; returns
+    (clause, model input, what the real transform_light_source does on the two frames) or None"""
+    body = ("Local Open Scope Q_scope.\nEval vm_compute in (filterpos_verdicts 30 30 (mk_irect (-80) (-80) 600 600) "
+            "(from_row 1 0 0 1 120 120) 9 (-4) 9 (-4)).\n")
+    rcode, out = ctx.coq_eval('search_filterpos', body, ['Model.Base', 'Model.Render', 'Gen.LeafFilterPos', 'Model.FilterPos'], timeout=120)
+    v = ctx.parse_N_list(out) if rcode == 0 else None
+    if not v or not any(v):
+        return None
+    names = ['C13_turbulence_offset_invariant', 'C13_point_light_equivariant', 'C13_spot_light_equivariant', 'C13_turbulence_phase_equivariant']
+    name = names[[i for i, x in enumerate(v) if x][0]]
+    inp = dict(light=[30, 30], region=[-80, -80, 600, 600], layer_ts=[1, 0, 0, 1, 120, 120], frame_move=[9, -4])
+    outs = ctx.rvh_batch(binp, 'c13-light', ["point;30,30,10,0,0,0;-80,-80,600,600;1,0,0,1,120,120", "point;30,30,10,0,0,0;-71,-84,600,600;1,0,0,1,129,116",
+                                            "spot;30,30,10,20,20,0;-80,-80,600,600;1,0,0,1,120,120", "spot;30,30,10,20,20,0;-71,-84,600,600;1,0,0,1,129,116"])
+    return name, inp, outs
+
+
 def run(ctx):
     rng = ctx.rng
     quick = ctx.tier == 'quick'
     ctx.cov['trusted_base'] = vlib.BASE_TRUSTED + [
         "tiny-skia (rasteriser, shaders, draw_pixmap): unmodelled; its translation equivariance is observed by the pixel oracle only",
         "tiny_skia_path::Rect::to_int_rect, IntRect::from_xywh/from_ltrb hand-modelled, tied by the layer-trace correspondence",
-        "filter primitives' own geometry (sub-regions, light sources, turbulence offset) is not modelled here: observed by the pixel oracle",
+        "filter primitives: light-source mapping, turbulence offset / sample point and the placement of the result on the layer are "
+        "source-derived (Gen/LeafFilterPos.v) and tied by c13-light; sub-regions, feTile, feImage, feOffset and pattern phase are observed by the pixel oracle only",
     ]
     ctx.assumptions = [
         "device boxes within +-2^29 (no i32 saturation)",
         "C13_filter_region_equivariant: single filter, layer not clamped",
+        "C13_turbulence_phase_equivariant: the filter layer follows its content (not clamped; refuted otherwise: class clamped-filter-region-origin)",
     ]
     broken = ctx.translate()
     res = ctx.coq_props()
     proof_ok = res['ok'] and not broken
     # the model files the correspondence evaluates (also when a proof file no longer compiles)
-    ctx.coq_build(['Model/Corr.v', 'Model/Render.v', 'Model/Compose.v'])
+    ctx.coq_build(['Model/Corr.v', 'Model/Render.v', 'Model/Compose.v', 'Model/FilterPos.v'])
 
     binp, blog = ctx.harness('release')
     if binp is None:
@@ -118,6 +203,33 @@ def run(ctx):
                       dict(build_log=blog[-2000:]), found_input=False)
         return
     files = vlib.corpus_files()
+
+    # ------------------------------------------------------------------ K: light-source mapping (extension round 4)
+    nl = light_correspondence(ctx, binp, 120 if quick else 1200)
+    ctx.cov['light_cases'] = nl
+    ctx.log("c13-light: %d cases agree with the source-derived light-source mapping" % nl)
+    # known class clamped-filter-region-origin (found while stating C13_turbulence_phase_equivariant at full strength): the
+    # result of a filter whose layer was clamped to max_bbox is drawn at the layer origin although its pixel (0,0) stands for
+    # the region origin, so position-dependent primitives do not follow a root translation
+    # (C13_turbulence_phase_equivariant_refuted).  The witness must (a) still show the defect through the class predicate of
+    # the harness (region_off) or (b) render correctly - anything else is a different violation.
+    cw = open(vlib.VERIF + '/corpus/witness/C13-clamped-filter-turbulence.svg').read().strip()
+    o = ctx.rvh_batch(binp, 'c13-shift', ["-\t%s\tnative:1:0:0\t9\t-4" % cw.replace('\n', ' ')])[0]
+    try:
+        pr = json.loads(o)
+    except (TypeError, ValueError):
+        pr = {}
+    ctx.cov['clamped_filter_probe'] = {k: pr.get(k) for k in ('n0', 'n64', 'max', 'nonblank', 'region_off', 'neg_origin')}
+    wrep = dict(op='c13-shift', doc=cw, view='native:1:0:0', shift=[9, -4], result=pr)
+    if 'n64' not in pr:
+        ctx.violation("the witness of class clamped-filter-region-origin no longer renders: %s" % str(pr)[:200], wrep)
+    elif pr['n64'] > 2:
+        text = ("feTurbulence in a filter whose region exceeds max_bbox does not follow a whole-pixel root translation: %d of %d painted "
+                "pixels differ by more than 64 levels under translate(9,-4) on a 60x60 canvas" % (pr['n64'], pr.get('nonblank', 0)))
+        if pr.get('region_off'):
+            ctx.known_or_violation('clamped-filter-region-origin', text, wrep)
+        else:
+            ctx.violation(text + " - and the trace does not show the class (clamped layer, region origin off the layer origin)", wrep)
 
     # ------------------------------------------------------------------ K: layer-trace under shifted roots
     jobs = []
@@ -201,6 +313,16 @@ def run(ctx):
     # ------------------------------------------------------------------ proofs broken: search
     if not proof_ok:
         found = bool(ctx.violations)
+        if not found:
+            fp = model_search_filterpos(ctx, binp)
+            if fp:
+                ctx.violation("model counterexample to %s in the source-derived filter positions: light (30,30), region (-80,-80,600,600), "
+                              "layer transform translate(120,120), frame moved by (9,-4) [the clamped filter layer of "
+                              "corpus/witness/C13-clamped-filter-turbulence.svg under root translate(9,-4)]; the real transform_light_source on the "
+                              "two frames (16 x position relative to the region): %s" % (fp[0], [x[:60] for x in fp[2]]),
+                              dict(theorem=fp[0], model_input=fp[1], implementation_light_source=fp[2], failed_files=res['failed'], broken_ties=broken,
+                                   doc=open(vlib.VERIF + '/corpus/witness/C13-clamped-filter-turbulence.svg').read().strip(), view='native:1:0:0', shift=[9, -4]))
+                found = True
         if not found:
             g = rc.model_search_geometry(ctx, 300 if quick else 3000)
             if g:
